@@ -1,9 +1,12 @@
 (* C14 -- generated SQL carries every literal and identifier verbatim.
-   Statements about quote_string / quote_identifier / _clean_annotation REGENERATED from data_algebra/sql_model.py and
-   MySQL.py (Gen/G_Quote.v, Gen/G_QuoteMySQL.v), against the lexing rules of Model/Lex.v. *)
-From Coq Require Import List Bool Arith Ascii String.
+   Statements about quote_string / quote_identifier / _clean_annotation / value_to_sql REGENERATED from
+   data_algebra/sql_model.py and MySQL.py (Gen/G_Quote.v, Gen/G_QuoteMySQL.v, Gen/G_ValueToSql.v), against the lexing rules of
+   Model/Lex.v; Python values and CPython's str(int) / repr(float) are modelled in Model/PyVal.v; concat_rows labels and
+   record-map SQL in Model/RecMapSql.v (token model rendered with the regenerated quoting functions). *)
+From Coq Require Import List Bool Arith ZArith Ascii String.
 Import ListNotations.
-From DA Require Import Base.PyRT Base.PyStr Model.Lex Gen.G_Quote Gen.G_QuoteMySQL Proofs.QuoteP.
+From DA Require Import Base.PyRT Base.PyStr Model.Lex Model.PyVal Gen.G_Quote Gen.G_QuoteMySQL Gen.G_ValueToSql Proofs.QuoteP
+  Proofs.ValueP Model.RecMapSql Proofs.RecMapP.
 Local Open Scope string_scope.
 
 (* standard family (SQLite, PostgreSQL): EVERY string reads back verbatim and the text after the literal is untouched,
@@ -52,7 +55,74 @@ Theorem C14_annotation_comment_is_inert : forall a c rest : string,
 Proof. exact comment_is_inert. Qed.
 Print Assumptions C14_annotation_comment_is_inert.
 
+(* value_to_sql: every scalar value (None, str, bool, int, finite float, NaN, expr_rep.Value of one) is written as ONE literal
+   token of the dialect -- NULL, TRUE/FALSE, a signed numeric literal or a string literal -- that denotes the same value
+   (same_value: same string; same integer; for a float (+/-) d1..dn * 10^(decpt-n) exactly; NaN and None are NULL), and the
+   text after it is untouched.  Backslash family: strings without a backslash (listed finding). *)
+Theorem C14_value_to_sql_reads_back : forall (fam : family) (q : ascii) (v : pyval) (rest : string),
+  quote_ok q = true -> scalar_ok v -> (fam = Backslash -> no_backslash v) ->
+  ends_token rest = true -> starts_with_char q rest = false ->
+  exists sv, read_value fam q (value_to_sql (q1 q) v ++ rest) = Some (sv, rest) /\ same_value v sv.
+Proof. exact value_to_sql_reads_back. Qed.
+Print Assumptions C14_value_to_sql_reads_back.
+
+(* ... which is FALSE for an infinite float: `inf` / `-inf` is not a literal (listed finding C14-infinite-float-literal) *)
+Theorem C14_value_to_sql_infinite_float_refuted :
+  read_value Std "'"%char (value_to_sql "'" (PFloat (FInf false)) ++ " AS x") = None /\
+  read_value Std "'"%char (value_to_sql "'" (PFloat (FInf true)) ++ " AS x") = None.
+Proof. exact value_to_sql_inf_refuted. Qed.
+Print Assumptions C14_value_to_sql_infinite_float_refuted.
+
+(* list values: only the shape is stated (every item is written by value_to_sql itself, so the theorem above applies to
+   each scalar item); a reader for the whole parenthesised list is not modelled *)
+Theorem C14_value_to_sql_list_items_partial : forall (qs : string) (l : list pyval),
+  value_to_sql qs (PList l) = "(" ++ str_join ", " (map (value_to_sql qs) l) ++ ")" /\
+  value_to_sql qs (PTuple l) = "(" ++ str_join ", " (map (value_to_sql qs) l) ++ ")" /\
+  value_to_sql qs (PListTerm l) = "(" ++ str_join ", " (map (value_to_sql qs) l) ++ ")".
+Proof. exact value_to_sql_list_items. Qed.
+Print Assumptions C14_value_to_sql_list_items_partial.
+
+(* concat_rows source labels reach the SQL as the literal value Value(a_name): EVERY label reads back verbatim in the
+   standard family (and every label without a backslash elsewhere) *)
+Theorem C14_concat_label_reads_back : forall (d : dialect) (name rest : string),
+  quote_ok (d_sq d) = true -> (d_fam d = Backslash -> has_char (Ascii.eqb "\"%char) name = false) ->
+  ends_token rest = true -> starts_with_char (d_sq d) rest = false ->
+  read_value (d_fam d) (d_sq d) (concat_label_sql d name ++ rest) = Some (SStr name, rest).
+Proof. exact concat_label_reads_back. Qed.
+Print Assumptions C14_concat_label_reads_back.
+
+(* record-map SQL: in the token model a user string (column name, key value, record key) reaches the text ONLY through
+   quote_identifier / quote_string / value_to_sql ... *)
+Theorem C14_recordmap_tokens_render_through_quoting : forall d : dialect,
+  (forall k, render_tok d (Kw k) = Some (kw_text d k)) /\
+  (forall n, render_tok d (Id (PStr n)) = quote_identifier (q1 (d_iq d)) n) /\
+  (forall s, render_tok d (Lit s) = Some (quote_string (q1 (d_sq d)) s)) /\
+  (forall v, render_tok d (Val v) = Some (value_to_sql (q1 (d_sq d)) v)).
+Proof. exact tokens_render_through_quoting. Qed.
+Print Assumptions C14_recordmap_tokens_render_through_quoting.
+(* ... and, whatever the control table, every line of both record-map queries that can be rendered reads back -- fixed
+   keyword by fixed keyword, hole by hole -- to exactly the names, strings and values that were put in *)
+Theorem C14_recordmap_literals : forall (d : dialect) (rs : recspec) (l : line) (text : string),
+  quote_ok (d_sq d) = true ->
+  In l (lines_of (emit_r2b rs) ++ lines_of (emit_b2r rs))%list -> Forall (tok_ok d) l -> render_line d l = Some text ->
+  exists items, read_shape d (map shape_of l) text = Some (items, "") /\ Forall2 tok_item l items.
+Proof. exact recordmap_lines_read_back. Qed.
+Print Assumptions C14_recordmap_literals.
+
 (* non-vacuity *)
+Example C14_examples_values :
+  value_to_sql "'" (PFloat (FFin true [d1; d2; d3; d4] (-6))) = "-1.234e-07" /\
+  value_to_sql "'" (PFloat (FFin false [d1] 17)) = "1e+16" /\ value_to_sql "'" (PFloat FNan) = "NULL" /\
+  value_to_sql "'" (PValue (PStr "it's")) = "'it''s'" /\ value_to_sql "'" (PInt (-12)) = "-12" /\
+  value_to_sql "'" (PBool true) = "TRUE" /\ value_to_sql "'" (PListTerm [PInt 1; PStr "a'b"; PNone]) = "(1, 'a''b', NULL)" /\
+  read_value Std "'"%char "-1.234e-07 AS x" = Some (SNum (mk_numtok true [d1] (Some [d2; d3; d4]) (Some (-7)%Z)), " AS x").
+Proof. vm_compute. repeat split. Qed.
+Definition C14_example_dialect := mk_dialect Std "'"%char """"%char "TEXT" "" "".
+Definition C14_example_spec := mk_recspec [("k", [PStr "x' OR 1=1 --"; PStr "b"]); ("v", [PStr "c 1"; PStr "c2"])] ["id"] ["k"].
+Example C14_examples_recordmap :
+  exists l text, In l (fst (emit_r2b C14_example_spec)) /\ render_line C14_example_dialect l = Some text /\
+    text = "  CASE   WHEN CAST(b.""v"" AS TEXT) = 'c 1' THEN a.""c 1""   WHEN CAST(b.""v"" AS TEXT) = 'c2' THEN a.""c2""  ELSE NULL END AS ""v""".
+Proof. eexists. eexists. split; [right; right; left; reflexivity|]. split; vm_compute; reflexivity. Qed.
 Example C14_examples :
   quote_string "'" "it's; DROP TABLE d; --" = "'it''s; DROP TABLE d; --'" /\
   quote_identifier """" "a b" = Some """a b""" /\ quote_identifier """" "a""b" = None /\
